@@ -209,7 +209,14 @@ fn main() {
         Some(id) if id.starts_with('C') => {
             let shards = std::env::var("VERIF_SHARDS").ok().and_then(|s| s.parse().ok()).unwrap_or(16usize);
             let mut ctx = report::RunCtx { property: id.to_string(), tier, seed, out, start: std::time::Instant::now(), shards, scale_pct: scale };
-            checks::run(&mut ctx)
+            // a panic of the harness itself is trouble of the machinery, never a verdict
+            match std::panic::catch_unwind(std::panic::AssertUnwindSafe(|| checks::run(&mut ctx))) {
+                Ok(code) => code,
+                Err(_) => {
+                    ctx.say(&format!("INCONCLUSIVE property={} the harness panicked (a bug of the check, not a verdict on the code)", id));
+                    2
+                }
+            }
         }
         _ => { writeln!(out, "usage: vcheck <ID> [quick|thorough] | replay <file> | probe <file.c> ...").ok(); 2 }
     };
